@@ -2,6 +2,7 @@
   C05 — Sequential behaviour equals a simple contiguous-log model.
 -/
 import RaftWal.Generated.WalLogic
+import RaftWal.Proofs.WalDecide
 import RaftWal.Proofs.WalRefine
 import RaftWal.Generated.Codec
 import RaftWal.Proofs.CrashSpecLink
@@ -106,21 +107,60 @@ theorem crash_spec_delTail_is_reference (tag : Log → Crash.Entry) (s : Spec.SL
     classifies a range, the truncation scans pick the segments to keep, and `StoreLogs` re-bases or refuses — the ones
     `Model.Wal.deleteRange` / `storeLogs` implement and `wal_refines_spec` is proved about -/
 
-theorem deleteRange_classification_from_source :
-    Generated.deleteRangeEmptyGuard = "min > max => return nil" ∧
-    Generated.deleteRangeSwitch =
-      [("max < first || min > last", "return nil"),
-       ("min <= first", "if max > last { max = last } ; return w.truncateHeadLocked(max + 1)"),
-       ("max >= last", "return w.truncateTailLocked(min - 1)"),
-       ("default", "return error")] := by decide
+/-- the model's `DeleteRange` on an open log is "decide, then act" … -/
+theorem deleteRange_is_decide_then_act (w : Wal) (min max : Nat) (hc : w.closed = false) :
+    w.deleteRange min max = w.applyDel (w.delDecision min max) :=
+  RaftWal.deleteRange_eq_decision w min max hc
 
-theorem truncation_scans_from_source :
-    Generated.truncateTailStops = ["seg.BaseIndex <= newMax"] ∧
-    Generated.truncateHeadStops = ["newState.lastIndex() >= newMin", "seg.MaxIndex >= newMin"] := by decide
+/-- … and **the decision is the one wal.go takes**, for all uint64 arguments: `Generated.deleteRangeDecide` is
+    `DeleteRange`'s empty-range return, its classification switch, the clamping of `max` and the wrapping `max+1` /
+    `min-1` it hands to the truncations, translated from the source expression by expression on every run. A rewrite of
+    wal.go that keeps the decision still proves; one that changes it for some (min, max, first, last) does not. -/
+theorem deleteRange_decision_from_source (w : Wal) (min max : Nat) (hmin : min < 2^64) (hmax : max < 2^64)
+    (hf : w.firstIndex < 2^64) (hl : w.lastIndex < 2^64) :
+    w.delDecision min max = Generated.deleteRangeDecide min max w.firstIndex w.lastIndex :=
+  RaftWal.delDecision_eq_source w min max hmin hmax hf hl
 
-theorem storeLogs_guards_from_source :
-    Generated.storeResetCond = "lastIdx == 0 && logs[0].Index != ti.BaseIndex" ∧
-    Generated.storeNonMonotonicCond = "lastIdx > 0 && l.Index != (lastIdx+1)" := by decide
+/-- the two decisions seeded changes broke, stated outright on the translated code: "everything up to MaxUint64" from at
+    or below the first index is a head truncation to `last+1` (no wrap to 0), and a range touching only the first entry is
+    a head truncation, not a no-op -/
+theorem deleteRange_source_boundaries :
+    (∀ first last, 0 < first → first ≤ last → last < 2^64 - 1 →
+        Generated.deleteRangeDecide first (2^64 - 1) first last = .head (last + 1)) ∧
+    (∀ first last mn, 0 < first → first ≤ last → last < 2^64 - 1 → mn ≤ first →
+        Generated.deleteRangeDecide mn first first last = .head (first + 1)) := by
+  refine ⟨?_, ?_⟩
+  · intro first last h0 h1 h2
+    have a : ¬ first > 2^64 - 1 := by omega
+    have b : ¬ (2^64 - 1 < first) := by omega
+    have c : ¬ first > last := by omega
+    have d : 2^64 - 1 > last := by omega
+    have e : (last + 1) % 2^64 = last + 1 := Nat.mod_eq_of_lt (by omega)
+    simp [Generated.deleteRangeDecide, a, b, c, d, u64, e]
+  · intro first last mn h0 h1 h2 h3
+    have a : ¬ mn > first := by omega
+    have c : ¬ mn > last := by omega
+    have e : (first + 1) % 2^64 = first + 1 := Nat.mod_eq_of_lt (by omega)
+    by_cases d : first > last
+    · omega
+    · simp [Generated.deleteRangeDecide, a, c, d, h3, u64, e]
+
+/-- the truncation scans and `StoreLogs`' two guards, as functions translated from the source, decide as the model's do -/
+theorem truncation_scans_from_source (s : SegS) (stateLast newMin newMax : Nat) :
+    (((¬ s.sealed ∧ stateLast ≥ newMin) ∨ (s.sealed ∧ s.max ≥ newMin)) ↔
+        Generated.truncateHeadStopsAt s.sealed s.base s.min s.max stateLast newMin = true) ∧
+    ((s.base ≤ newMax) ↔ Generated.truncateTailKeeps s.base s.min s.max newMax = true) :=
+  ⟨RaftWal.truncateHead_stop_eq_source s stateLast newMin, RaftWal.truncateTail_keep_eq_source s newMax⟩
+
+theorem storeLogs_guards_from_source (lastIdx firstNew tailBase idx : Nat) (h : lastIdx + 1 < 2^64) :
+    ((lastIdx = 0 ∧ firstNew ≠ tailBase) ↔ Generated.storeRebases lastIdx firstNew tailBase = true) ∧
+    ((lastIdx > 0 ∧ idx ≠ lastIdx + 1) ↔ Generated.storeRefusesIndex lastIdx idx = true) :=
+  ⟨RaftWal.store_rebase_eq_source lastIdx firstNew tailBase, RaftWal.store_refuses_eq_source lastIdx idx h⟩
+
+/-- at the very end of the index space the code's monotonicity check wraps (after 2^64−1 it would accept index 0):
+    the reason `wal_refines_spec` is stated for indexes below 2^64−1 (`Op.inRange`) -/
+theorem storeLogs_guard_wraps_at_max : Generated.storeRefusesIndex (2^64 - 1) 0 = false :=
+  RaftWal.store_refuses_wraps
 
 /-- both writers wait for a queued rotation before they look at the state (the model rotates inside the sealing append:
     no call ever sees a sealed tail that is still the tail) -/
